@@ -535,7 +535,26 @@ pub fn udp_smoke(ctx: &Ctx) -> SubResult {
             catchup_callback: None,
             extra_liveness_predicate: None,
         };
-        let handle = spawn_chitchat(config, vec![], &UdpTransport).await.map_err(|e| format!("spawn: {e:#}"))?;
+        let handle = spawn_chitchat(config, vec![("secret".to_string(), "1".to_string())], &UdpTransport).await.map_err(|e| format!("spawn: {e:#}"))?;
+        // A second real server of ANOTHER cluster, seeded at the first one. Its cluster id is the
+        // first one's id followed by 65,536 more bytes (the length prefix of a string is 16 bits):
+        // neither server may ever learn the other, whatever the transport does with a message that
+        // does not fit a datagram.
+        let other_probe = std::net::UdpSocket::bind("127.0.0.1:0").map_err(|e| format!("bind: {e}"))?;
+        let other_addr = other_probe.local_addr().map_err(|e| e.to_string())?;
+        drop(other_probe);
+        let other_config = ChitchatConfig {
+            chitchat_id: chitchat::ChitchatId::new("udp-other-cluster".into(), 0, other_addr),
+            cluster_id: format!("c{}", "-staging".repeat(8192)),
+            gossip_interval: Duration::from_millis(50),
+            listen_addr: other_addr,
+            seed_nodes: vec![server_addr.to_string()],
+            failure_detector_config: FailureDetectorConfig::default(),
+            marked_for_deletion_grace_period: Duration::from_secs(3600),
+            catchup_callback: None,
+            extra_liveness_predicate: None,
+        };
+        let other_handle = spawn_chitchat(other_config, vec![], &UdpTransport).await.map_err(|e| format!("spawn: {e:#}"))?;
         // A *valid* message that exactly fills a datagram (a SYN of another cluster whose id pads it
         // to 65,507 bytes) must be answered (with BadCluster), like a small one. The comparison with
         // the small probe keeps timing out of the verdict.
@@ -652,9 +671,15 @@ pub fn udp_smoke(ctx: &Ctx) -> SubResult {
                 _ => break,
             }
         }
+        let members = handle.with_chitchat(|c| c.node_states().len()).await;
+        let other_members = other_handle.with_chitchat(|c| c.node_states().len()).await;
+        let _ = tokio::time::timeout(Duration::from_secs(10), other_handle.shutdown()).await;
         let finished = tokio::time::timeout(Duration::from_secs(10), handle.shutdown()).await;
         if finished.is_err() {
             return Err("shutdown timed out (real time)".into());
+        }
+        if members != 1 || other_members != 1 {
+            return Ok((garbage, u64::MAX - 1));
         }
         Ok((garbage, answered))
     });
@@ -663,7 +688,11 @@ pub fn udp_smoke(ctx: &Ctx) -> SubResult {
             res.tally.evaluations += 1;
             res.tally.sum("garbage_datagrams", garbage);
             res.tally.sum("probes_answered", answered);
-            if answered == u64::MAX - 2 {
+            if answered == u64::MAX - 1 {
+                let f = Failure::new(format!("{}/udp-clusters-leaked", ctx.prop), "two servers on the real UDP transport with different cluster ids (\"c\" and \"c\" followed by 65,536 more bytes), the second seeded at the first: after the run one of them lists the other as a member");
+                let path = write_replay(ctx, "udp-loopback-smoke", &serde_json::json!({"udp_smoke": true}), &f);
+                res.violations.push(Violation { signature: f.signature, message: f.message, replay_path: path });
+            } else if answered == u64::MAX - 2 {
                 let f = Failure::new(format!("{}/udp-max-size-message-dropped", ctx.prop), "a valid 65,507-byte message (the size budget of the library itself) is never answered on the real UDP transport while a small one is");
                 let path = write_replay(ctx, "udp-loopback-smoke", &serde_json::json!({"udp_smoke": true}), &f);
                 res.violations.push(Violation { signature: f.signature, message: f.message, replay_path: path });
@@ -720,6 +749,14 @@ pub struct TargetsCase {
     /// Bitmask of peers whose address refuses every send (per-destination error).
     #[serde(default)]
     pub failing_peers: u16,
+    /// The server is configured with an application liveness predicate (a READY key) that no peer
+    /// satisfies: the peer pools of the gossip round must not depend on it.
+    #[serde(default)]
+    pub predicate: bool,
+    /// A host-name seed (`localhost:9300`) next to the literal ones, and the run lasts past the
+    /// first DNS refresh (60 s): the literal seeds must stay in the seed set.
+    #[serde(default)]
+    pub hostname_seed: bool,
 }
 
 pub fn exec_targets(case: &TargetsCase, tally: &mut Tally) -> Result<(), Failure> {
@@ -745,6 +782,9 @@ pub fn exec_targets(case: &TargetsCase, tally: &mut Tally) -> Result<(), Failure
         if case.seeds & 4 != 0 && n_peers > 0 {
             seeds.push(format!("127.0.0.1:{}", 9200));
         }
+        if case.hostname_seed {
+            seeds.push("localhost:9300".to_string());
+        }
         let config = ChitchatConfig {
             chitchat_id: id.clone(),
             cluster_id: "c".into(),
@@ -755,9 +795,9 @@ pub fn exec_targets(case: &TargetsCase, tally: &mut Tally) -> Result<(), Failure
             failure_detector_config: FailureDetectorConfig { dead_node_grace_period: Duration::from_secs(20), ..FailureDetectorConfig::default() },
             marked_for_deletion_grace_period: Duration::from_secs(3600),
             catchup_callback: None,
-            extra_liveness_predicate: None,
+            extra_liveness_predicate: if case.predicate { Some(Box::new(|ns: &chitchat::NodeState| ns.get("READY") == Some("true"))) } else { None },
         };
-        let handle = match spawn_chitchat(config, vec![], &transport).await {
+        let handle = match spawn_chitchat(config, vec![("READY".to_string(), "true".to_string())], &transport).await {
             Ok(h) => h,
             Err(e) => return vio("C17/spawn-failed", format!("{e:#}")),
         };
@@ -769,9 +809,17 @@ pub fn exec_targets(case: &TargetsCase, tally: &mut Tally) -> Result<(), Failure
                 }
             }
         }
-        let known: std::collections::HashSet<SocketAddr> = peer_ids.iter().map(|p| p.to_real().gossip_advertise_addr).chain(seeds.iter().filter_map(|s| s.parse().ok())).collect();
-        let n_live = (case.live as usize).min(n_peers);
-        for round in 0..(case.rounds % 14 + 3) as u64 {
+        let mut known: std::collections::HashSet<SocketAddr> = peer_ids.iter().map(|p| p.to_real().gossip_advertise_addr).chain(seeds.iter().filter_map(|s| s.parse().ok())).collect();
+        if case.hostname_seed {
+            known.insert("127.0.0.1:9300".parse().unwrap());
+            known.insert("[::1]:9300".parse().unwrap());
+        }
+        // With a host-name seed the server stays isolated for the whole run, which lasts well past
+        // the first DNS refresh.
+        let n_live = if case.hostname_seed { 0 } else { (case.live as usize).min(n_peers) };
+        let n_rounds = if case.hostname_seed { 62 + 110 } else { (case.rounds % 14 + 3) as u64 };
+        let mut literal_seed_after_refresh = 0u32;
+        for round in 0..n_rounds {
             // digest from peer 0: all peers, the first n_live with increasing heartbeats
             if n_peers > 0 {
                 let digest: Vec<WNodeDigest> = peer_ids.iter().enumerate().map(|(i, p)| WNodeDigest { id: p.clone(), heartbeat: if i < n_live { 10 + round } else { 10 }, last_gc: 0, max_version: 0 }).collect();
@@ -795,7 +843,18 @@ pub fn exec_targets(case: &TargetsCase, tally: &mut Tally) -> Result<(), Failure
                     return vio("C17/server-unknown-target", format!("round {round}: SYN to {a}, which is neither a known peer nor a seed"));
                 }
             }
-            if round >= 1 && n_live == 0 && case.seeds & 1 != 0 && !syns.contains(&foreign_seed) && !(case.seeds & 4 != 0 && syns.iter().any(|a| a.port() == 9200)) {
+            if round >= 62 && syns.contains(&foreign_seed) {
+                literal_seed_after_refresh += 1;
+            }
+            // At most one dead peer per round once a live peer is known (the regular targets are
+            // then drawn from the live peers only). Peer 0 may double as a seed.
+            if n_live >= 1 && round >= 5 {
+                let dead_hit = syns.iter().filter(|a| peer_ids[n_live..].iter().any(|p| p.to_real().gossip_advertise_addr == **a)).count();
+                if dead_hit > 1 {
+                    return vio("C17/server-several-dead-targets", format!("round {round}: {n_live} live peers are known, yet {dead_hit} dead peers were contacted in one round: {syns:?} (application liveness predicate configured: {})", case.predicate));
+                }
+            }
+            if round >= 1 && n_live == 0 && case.seeds & 1 != 0 && !syns.contains(&foreign_seed) && !(case.seeds & 4 != 0 && syns.iter().any(|a| a.port() == 9200)) && !(case.hostname_seed && syns.iter().any(|a| a.port() == 9300)) {
                 return vio("C17/server-isolated-no-seed", format!("round {round}: no live peer and a seed exists, yet the round's SYNs {syns:?} reach no seed"));
             }
             // Dead peers outnumbering live ones must be probed, also once they are scheduled for
@@ -810,6 +869,17 @@ pub fn exec_targets(case: &TargetsCase, tally: &mut Tally) -> Result<(), Failure
             tally.sum("rounds_observed", 1);
         }
         let _ = tokio::time::timeout(STALL, handle.shutdown()).await;
+        if case.hostname_seed && case.seeds & 1 != 0 {
+            // 110 isolated rounds after the refresh, one seed drawn uniformly from at most 4 per
+            // round: the literal seed is missed by chance with probability < (3/4)^110 ~ 2e-14.
+            if literal_seed_after_refresh == 0 {
+                return vio("C17/server-literal-seed-lost-after-dns-refresh", format!("isolated server with seeds {seeds:?}: in the 110 rounds after the first DNS refresh (60 s) the literal seed {foreign_seed} was not contacted a single time"));
+            }
+            tally.label("ran_past_dns_refresh");
+        }
+        if case.predicate && n_live >= 1 {
+            tally.label("liveness_predicate_no_peer_ready");
+        }
         if case.seeds & 2 != 0 || n_live == 0 {
             tally.nontrivial(str_hash(&format!("{case:?}")));
             tally.sample(|| serde_json::to_value(case).unwrap());
@@ -824,7 +894,8 @@ pub fn exec_targets(case: &TargetsCase, tally: &mut Tally) -> Result<(), Failure
 }
 
 pub fn targets_strategy() -> impl Strategy<Value = TargetsCase> {
-    (0u8..13, 0u8..13, 0u8..8, 0u8..16, prop_oneof![2 => Just(0u16), 1 => any::<u16>()]).prop_map(|(peers, live, seeds, rounds, failing_peers)| TargetsCase { peers, live, seeds, rounds, failing_peers })
+    (0u8..13, 0u8..13, 0u8..8, 0u8..16, prop_oneof![2 => Just(0u16), 1 => any::<u16>()], proptest::bool::weighted(0.3), proptest::bool::weighted(0.04))
+        .prop_map(|(peers, live, seeds, rounds, failing_peers, predicate, hostname_seed)| TargetsCase { peers, live, seeds, rounds, failing_peers, predicate, hostname_seed })
 }
 
 pub fn run_targets(ctx: &Ctx, report: &mut Report) {
